@@ -365,6 +365,14 @@ func c12View(b *fw.B, k int) {
 		sc.ForkEpochs = [4]uint64{1, 2, 3, 4}
 	case 6:
 		sc.ForkEpochs = [4]uint64{1, 2, 3, 4} // deneb: epoch-based attestation window, fixed exit domain, blob commitments
+		if ((b.Batch+k)/nVariants)%2 == 1 {
+			// the head is inside the deneb fork epoch itself: the deneb rules apply from the first epoch on
+			sc.Family = "gossip-denebforkepoch"
+			sc.ForkEpochs[3] = 5
+			if !fw.Quick(b.Tier) {
+				sc.ForkEpochs[3] = 6
+			}
+		}
 	case 4:
 		sc.Family = "gossip-bigcommittee" // committees of 32 and a sync committee of 128: aggregator selection is not trivial
 		sc.Validators = 256
@@ -488,7 +496,12 @@ func c12View(b *fw.B, k int) {
 	g.attestationTopics()
 	g.opsTopics()
 	if head.ref.Fork >= refspec.Altair {
-		g.syncTopics()
+		g.syncTopics(0)
+		if variant == 5 || (b.Batch+k)%3 == 0 {
+			// messages for the empty slot after the head, still voting for the head: the committee is the one of the message's slot
+			// (in the sync-boundary view that slot is the first one of the next period)
+			g.syncTopics(1)
+		}
 	}
 }
 
@@ -1240,12 +1253,23 @@ func (g *g12) opsTopics() {
 // ---------------------------------------------------------------------------------------
 // sync committee topics
 
-func (g *g12) syncTopics() {
+func (g *g12) syncTopics(gap uint64) {
 	v, c := g.v, g.c
 	sp := c.Sp
 	head := v.blocks[v.head]
-	slot := uint64(head.step.Slot())
+	slot := uint64(head.step.Slot()) + gap
 	st := head.ref
+	if gap > 0 {
+		st = head.ref.Copy()
+		if err := sp.ProcessSlots(st, slot); err != nil {
+			return
+		}
+		if st.Fork != head.ref.Fork {
+			return // not across an upgrade (other domain and message types)
+		}
+		g.b.Inc("sync_topics_for_the_empty_slot_after_the_head")
+		g.b.CountIf(st.CurrentSyncCommittee.Pubkeys[0] != head.ref.CurrentSyncCommittee.Pubkeys[0] || st.CurrentSyncCommittee.Pubkeys[1] != head.ref.CurrentSyncCommittee.Pubkeys[1], "sync_topics_for_an_empty_slot_whose_committee_differs_from_the_heads")
+	}
 	nVal := uint64(len(st.Validators))
 	subSize := sp.SYNC_COMMITTEE_SIZE / 4
 	sps := int64(v.zspec.SECONDS_PER_SLOT) * 1000
